@@ -298,7 +298,7 @@ def run(ctx):
     env()
     rng = ctx.rng
     cases = [WITNESS] + corpus_cases()
-    n = ctx.budget(700, 20000)
+    n = ctx.budget(700, 8000)
     for i in range(n):
         cases.append(gen_case(rng, clean=(i % 2 == 0)))
     outs = ctx.model([line_of(c) for c in cases])
